@@ -208,6 +208,10 @@ impl Run {
     }
     let mut violation_files = vec![];
     let dir = format!("{VERIF_ROOT}/replays/{}", self.id);
+    // replay files describe THIS run only
+    if self.replay.is_none() {
+      std::fs::remove_dir_all(&dir).ok();
+    }
     if !g.unlisted.is_empty() {
       std::fs::create_dir_all(&dir).ok();
     }
